@@ -17,6 +17,7 @@ struct TreeOpts {
 	bool bad_crc_sometimes = false;   // some members carry a wrong recorded CRC (still well formed)
 	int tzoff = 0;
 	bool ghosts = false;         // some stored members contain a complete small member as their contents
+	bool abs_mix = false;        // some entries spell their path with a leading '/', others of the same directory without
 	bool perms = true;
 	bool hard_perms = true;      // read-only / search-only / 0000 directories
 	std::vector<std::string> methods;   // restrict methods (empty = all)
